@@ -156,7 +156,12 @@ class FlowFields(ImageBatch):
             torch.tensor_split,
             Tensor.tensor_split,
         ):
-            return tuple(cls._torch_function_result(func, res, grid, axes) for res in data)
+            if grid and isinstance(grid[0], Grid):
+                # Not split along batch dimension, every part contains data of all flow fields
+                grid = [grid] * len(data)
+            return tuple(
+                cls._torch_function_result(func, res, g, axes) for res, g in zip(data, grid)
+            )
         return cls._torch_function_result(func, data, grid, axes)
 
     @overload
